@@ -278,6 +278,10 @@ class InterpCore(object):
             return ep.app(v.path, [])
         if isinstance(v, ExtV) and v.name.split(".")[-1] == "pi":
             return ep.sym("pi")
+        if isinstance(v, ExtV) and v.name == "sys.float_info.epsilon":
+            return ep.const(ep.frac("2.220446049250313e-16"))
+        if isinstance(v, ExtV) and v.name in ("math.inf",):
+            return ep.sym("inf")
         if isinstance(v, LookupV):
             return ep.app(("lookupval", v.key()), [])
         if isinstance(v, Unknown):
@@ -518,6 +522,12 @@ class InterpCore(object):
             return self.assume(Cond("truthy", v))
         if isinstance(v, Undefined):
             raise AnalysisError("use of undefined value")
+        if type(v).__name__ == "NTV":
+            return len(v.values) > 0
+        if type(v).__name__ in ("PyObjV", "DerivV", "NTClassV", "LocalClassV", "LoggerV", "CmpKeyV"):
+            return True
+        if type(v).__name__ == "SortedV":
+            return len(v.items) > 0
         raise AnalysisError("truthiness of %r" % (v,))
 
     def assume(self, cond):
